@@ -30,7 +30,7 @@ from __future__ import annotations
 import ast
 import itertools
 
-from engine.absint import Interp, Obj, PyFunc, Unsupported, _Raise
+from engine.absint import TOP, Interp, Obj, PyFunc, Unsupported, _Raise
 from engine.loader import AnalysisError, norm
 
 P = "param.parameterized."
@@ -998,3 +998,200 @@ def report_batch_rebind(ctx, rule):
                  input="with batch_call_watchers(o): o.sub = S(x=2); o.sub = S(x=3)   # @depends('sub.x', watch=True) method")
     else:
         ctx.ok(rule, g, g.node, "depends model: a path root replaced twice inside one batch -- the rebuilt watcher takes the queue slot of the watcher it replaces; the method runs once at the flush (%d cases)" % n)
+
+
+# --------------------------------------------------------------------------------------------------
+# (i) binding the class-level dependencies to the instance
+# --------------------------------------------------------------------------------------------------
+def resolve_mcs(ctx):
+    """_resolve_mcs_deps interpreted for a method whose class-level dependencies name the same parameter under two kinds
+    (`p` and `p:bounds`, in both orders), another parameter, and a dependency owned by a foreign class.
+
+    Specification: the result holds, in order, one entry per input entry; an entry owned by the object's class is bound
+    to the instance (inst = the object, pobj = the instance's Parameter of that name) and keeps its own name AND kind
+    (`what`); a foreign entry passes through unchanged."""
+    f = ctx.repo.func(P + "_resolve_mcs_deps")
+    problems, n = [], 0
+    for order in (("value", "bounds"), ("bounds", "value")):
+        the_cls, foreign = Obj("Cls"), Obj("ForeignCls")
+        pobjs = {"p": Obj("instance_Parameter_p"), "q": Obj("instance_Parameter_q")}
+        obj = Obj("instance", param=Obj("namespace", __getitem__=pobjs))
+        deps = [Obj("dep_p_%s" % order[0], inst=None, cls=the_cls, name="p", pobj=Obj("class_Parameter_p"), what=order[0]),
+                Obj("dep_q_value", inst=None, cls=the_cls, name="q", pobj=Obj("class_Parameter_q"), what="value"),
+                Obj("dep_p_%s" % order[1], inst=None, cls=the_cls, name="p", pobj=Obj("class_Parameter_p"), what=order[1]),
+                Obj("dep_foreign", inst=None, cls=foreign, name="z", pobj=Obj("foreign_Parameter"), what="value")]
+
+        def hook(fn, args, kwargs):
+            if fn == "type" and args and args[0] is obj:
+                return the_cls
+            if fn == "issubclass" and len(args) == 2:
+                return args[0] is args[1]
+            if fn == "PInfo":
+                return Obj("bound_dependency", **kwargs) if not args else NotImplemented
+            return NotImplemented
+        it = Interp(ctx.hier, call_hook=hook)
+        try:
+            outs = it.run_all(f, {"obj": obj, "resolved": list(deps), "dynamic": [], "intermediate": True})
+        except Unsupported as e:
+            raise AnalysisError("depends model: absint cannot interpret _resolve_mcs_deps: %s" % e)
+        if len(outs) != 1 or outs[0].imprecise or outs[0].kind != "return" or not isinstance(outs[0].value, list):
+            raise AnalysisError("depends model: _resolve_mcs_deps is not interpretable precisely (%s)" % (outs[0].notes[:2] if outs else "no outcome"))
+        n += 1
+        got = outs[0].value
+        if len(got) != len(deps):
+            problems.append("%d dependencies in, %d out" % (len(deps), len(got)))
+            continue
+        for d, g in zip(deps, got):
+            if d.attrs["cls"] is foreign:
+                if g is not d:
+                    problems.append("a dependency owned by another class does not pass through unchanged")
+                continue
+            if not isinstance(g, Obj) or g.attrs.get("inst") is not obj or g.attrs.get("pobj") is not pobjs[d.attrs["name"]]:
+                problems.append("the dependency on %s is not bound to the instance and its own Parameter" % d.attrs["name"])
+            elif g.attrs.get("name") != d.attrs["name"] or g.attrs.get("what") != d.attrs["what"]:
+                problems.append("depends('p', 'p:bounds') (declared in the order %s): the entry for (%s, %s) comes back as (%s, %s) -- only one kind of watcher is installed, the method no longer "
+                                "runs for the other kind of change" % (", ".join(order), d.attrs["name"], d.attrs["what"], g.attrs.get("name"), g.attrs.get("what")))
+    return n, problems
+
+
+def report_resolve_mcs(ctx, rule):
+    n, problems = resolve_mcs(ctx)
+    f = ctx.repo.func(P + "_resolve_mcs_deps")
+    ctx.abstract_cases += n
+    if problems:
+        ctx.fail(rule, f, f.node, "depends model (instance binding): %s (%d problem(s))" % (problems[0], len(problems)), key=f.qualname + "::instance-binding",
+                 input="@depends('p', 'p:bounds', watch=True) def cb; obj.param.p.bounds = (0, 5) -> cb not called")
+    else:
+        ctx.ok(rule, f, f.node, "depends model: _resolve_mcs_deps binds every class-level dependency to the instance with its own name and kind, in order; foreign entries pass through (%d cases)" % n)
+
+
+# --------------------------------------------------------------------------------------------------
+# (j) the dotted-path helper the change filter reads leaf values with
+# --------------------------------------------------------------------------------------------------
+def getattrr(ctx):
+    """_getattrr(obj, 'a.b.x', <default>) interpreted on: the path resolving to a truthy leaf, to a FALSY leaf (0, '',
+    False, () -- a value like any other), to None; a path broken at the first / second link (attribute missing), with
+    and without a default.
+
+    Specification: a resolving path gives the very leaf object; a broken path gives the default when there is one and
+    raises AttributeError otherwise."""
+    f = ctx.repo.func(P + "_getattrr")
+    problems, n = [], 0
+    MISSING = object()
+    for leaf_kind, broken, with_default in [(k, b, d) for k in ("truthy", "falsy", "none") for b in (None,) for d in (True, False)] + [("truthy", b, d) for b in (1, 2) for d in (True, False)]:
+        leaf = None if leaf_kind == "none" else Obj("leaf_value_" + leaf_kind)
+        if leaf_kind == "falsy":
+            leaf.attrs["__bool__"] = False
+        b_obj = Obj("object_b", x=leaf)
+        a_obj = Obj("object_a", **({} if broken == 2 else {"b": b_obj}))
+        root = Obj("root", **({} if broken == 1 else {"a": a_obj}))
+        for o in (root, a_obj, b_obj):
+            o.attrs["__strict_attrs__"] = True
+        default = Obj("the_default")
+
+        def hook(fn, args, kwargs):
+            if fn == "getattr" and len(args) in (2, 3) and isinstance(args[1], str):
+                o = args[0]
+                if isinstance(o, Obj) and args[1] in o.attrs:
+                    return o.attrs[args[1]]
+                if len(args) == 3:
+                    return args[2]
+                raise _Raise("AttributeError")
+            return NotImplemented
+        it = Interp(ctx.hier, call_hook=hook)
+        try:
+            outs = it.run_all(f, {"obj": root, "attr": "a.b.x", "args": (default,) if with_default else ()})
+        except Unsupported as e:
+            raise AnalysisError("depends model: absint cannot interpret _getattrr: %s" % e)
+        if len(outs) != 1 or outs[0].imprecise:
+            raise AnalysisError("depends model: _getattrr is not interpretable precisely (%s)" % (outs[0].notes[:2] if outs else "no outcome"))
+        n += 1
+        o = outs[0]
+        if o.kind == "return" and o.value is TOP:
+            raise AnalysisError("depends model: _getattrr returns a value the interpreter cannot follow (TOP)")
+        desc = "_getattrr(root, 'a.b.x'%s) where %s" % (", default" if with_default else "", "the path resolves to %s" % {"truthy": "an ordinary value", "falsy": "a FALSY value (0, '', False, ())",
+                                                           "none": "None"}[leaf_kind] if broken is None else "link %d of the path is missing" % broken)
+        if broken is None:
+            if o.kind != "return" or o.value is not leaf:
+                problems.append("%s gives %s, specification: the very leaf value -- the change filter reads old and new leaf values with it: a falsy value read as the default compares equal to "
+                                "None, and attaching an object whose leaf went None -> 0 is not noticed" % (desc, "an exception" if o.kind != "return" else getattr(o.value, "name", o.value)))
+        elif with_default:
+            if o.kind != "return" or o.value is not default:
+                problems.append("%s gives %s, specification: the default" % (desc, "an exception" if o.kind != "return" else getattr(o.value, "name", o.value)))
+        elif o.kind != "raise":
+            problems.append("%s returns %s, specification: AttributeError" % (desc, getattr(o.value, "name", o.value)))
+    return n, problems
+
+
+def report_getattrr(ctx, rule):
+    n, problems = getattrr(ctx)
+    f = ctx.repo.func(P + "_getattrr")
+    ctx.abstract_cases += n
+    if problems:
+        ctx.fail(rule, f, f.node, "depends model (path helper): %s (%d problem(s))" % (problems[0], len(problems)), key=f.qualname + "::path-helper",
+                 input="@depends('sub.x', watch=True) def cb; sub.x is None; obj.sub = Sub(x=0) -> cb not called")
+    else:
+        ctx.ok(rule, f, f.node, "depends model: _getattrr returns the very leaf value (falsy ones included), the default for a broken path, AttributeError without one (%d cases)" % n)
+
+
+# --------------------------------------------------------------------------------------------------
+# (k) the change filter on SEVERAL events of one batch
+# --------------------------------------------------------------------------------------------------
+def skip_event_multi(ctx):
+    """_skip_event interpreted with TWO replacement events delivered together (`mid.param.update(left=.., right=..)`: one
+    watcher watches both attributes) whose sub-objects share the relative leaf path `x`, for every combination of
+    (left.x changed?, right.x changed?), with the per-parameter dict form of `changed` and the list form.
+
+    Specification: the events are skipped (True) iff NO compared value differs -- each event's own old / new objects are
+    compared."""
+    f = ctx.repo.func(P + "_skip_event")
+    UNDEF = Obj("Undefined")
+    problems, n = [], 0
+    for form in ("dict", "list"):
+        for lch, rch in itertools.product([False, True], repeat=2):
+            vals = {}
+
+            def sub(name, changed):
+                v_old = Obj("value_x_of_old_%s" % name)
+                v_new = Obj("value_x_of_new_%s" % name) if changed else v_old
+                o, nw = Obj("old_%s" % name, x=v_old), Obj("new_%s" % name, x=v_new)
+                return o, nw
+            lo, ln = sub("left", lch)
+            ro, rn = sub("right", rch)
+            e1 = Obj("event_left", name="left", old=lo, new=ln, what="value")
+            e2 = Obj("event_right", name="right", old=ro, new=rn, what="value")
+            changed = {"left": [("x", "value")], "right": [("x", "value")]} if form == "dict" else ["x"]
+
+            def hook(fn, args, kwargs):
+                if fn == "_getattrr" and len(args) >= 2 and isinstance(args[1], str) and isinstance(args[0], Obj):
+                    return args[0].attrs.get(args[1], args[2] if len(args) > 2 else None)
+                if fn == "Comparator.is_equal" and len(args) == 2:
+                    return args[0] is args[1]
+                if fn == "isinstance" and len(args) == 2 and args[1] == "<type dict>":
+                    return isinstance(args[0], dict)
+                return NotImplemented
+            it = Interp(ctx.hier, call_hook=hook, globals={"Undefined": UNDEF})
+            try:
+                outs = it.run_all(f, {"events": (e1, e2), "kwargs": {"what": "value", "changed": changed}})
+            except Unsupported as e:
+                raise AnalysisError("depends model: absint cannot interpret _skip_event: %s" % e)
+            if len(outs) != 1 or outs[0].imprecise or outs[0].kind != "return" or outs[0].value not in (True, False):
+                raise AnalysisError("depends model: _skip_event is not interpretable precisely (%s)" % (outs[0].notes[:2] if outs else "no outcome"))
+            n += 1
+            want = not (lch or rch)
+            if outs[0].value is not want:
+                problems.append("two sub-objects replaced in one batch (left.x %s, right.x %s; `changed` given as a %s): the events are %s, specification %s -- each event's own objects must be "
+                                "compared, also when the sub-parameter has the same relative path as one compared before" % (
+                                    "differs" if lch else "same", "differs" if rch else "same", form, "skipped" if outs[0].value else "delivered", "skipped" if want else "delivered"))
+    return n, problems
+
+
+def report_skip_event_multi(ctx, rule):
+    n, problems = skip_event_multi(ctx)
+    f = ctx.repo.func(P + "_skip_event")
+    ctx.abstract_cases += n
+    if problems:
+        ctx.fail(rule, f, f.node, "depends model (change filter, several events): %s (%d problem(s))" % (problems[0], len(problems)), key=f.qualname + "::multi-event-filter",
+                 input="@depends('mid.left.x', 'mid.right.x', watch=True) def cb; obj.mid.param.update(left=L(x=same), right=R(x=other)) -> cb not called")
+    else:
+        ctx.ok(rule, f, f.node, "depends model: _skip_event on two replacement events of one batch: skipped iff no compared value differs (%d cases)" % n)
